@@ -125,7 +125,12 @@ fn check_comment(t: &Text, owner: &str, c: &DocComment) -> Option<Value> {
         return bad("span of a doc comment (within the comment's lines)", owner, &c.span, json!({"comment_rows": [block.0, block.1]}));
     }
     // (where inside its first line the comment's own span starts is not fixed by the statement: the pinned tree starts it
-    // three columns before the first token after '///', which is the first slash only when that token follows at once)
+    // three columns before the first token after '///', which is the first slash only when that token follows at once) -
+    // but it starts in the comment, not in what stands on the line before the slashes
+    let first_slash = t.line(f, c.span.start.row).and_then(|l| l.iter().position(|ch| *ch == '/')).map(|i| i + 1).unwrap_or(1);
+    if c.span.start.col < first_slash {
+        return bad("span of a doc comment (starts at or after its slashes)", owner, &c.span, json!({"slashes_at_col": first_slash}));
+    }
     if let Some(m) = &c.overview {
         if let Some(x) = check_message(t, owner, m, f, block) {
             return Some(x);
